@@ -33,7 +33,7 @@ REQUIRED = ["entries_injective", "einv_fresh", "bit_set_get", "bit_total", "serv
             # base URL changes (NutsProofs.Props.C11Rebase)
             "slots_unique_across_url_changes", "entry_update_independent_of_base", "fact_entry_update_key"]
 
-ENTRY_RE = re.compile(r"(n\d+/\S+/\d+) (\d+) wf=(\w+)")
+ENTRY_RE = re.compile(r"(n\d+/\S+/\d+) (\S+) wf=(\w+)")
 
 
 def scenario_ops(ops, i):
@@ -44,6 +44,13 @@ def scenario_ops(ops, i):
     while k > 0 and json.loads(ops[k]).get("op") != "reset":
         k -= 1
     return "\n".join(ops[k:i + 1]) + "\n"
+
+
+def ref_atoi(s):
+    """reference of strconv.Atoi for a 64-bit int: optional sign, ASCII digits only, value in range; None = error"""
+    if re.fullmatch(r"[+-]?[0-9]+", s) and -2**63 <= int(s) < 2**63:
+        return int(s)
+    return None
 
 
 def oracle(ctx, ops, impl, max_index, min_left_min, max_age=900):
@@ -113,6 +120,9 @@ def oracle(ctx, ops, impl, max_index, min_left_min, max_age=900):
                     served[(node, m.group(1))] = bits
             for m in ENTRY_RE.finditer(line.split(" revokes=")[0]):
                 stats["entries"] += 1
+                if not m.group(2).isdigit() or m.group(2) != str(int(m.group(2))):
+                    report("C11:malformed-entry", f"statusListIndex {m.group(2)!r} is not a canonical decimal: {line[:200]}", i)
+                    continue
                 key = (node, m.group(1), int(m.group(2)))
                 if key in issued:
                     report("C11:status-list-position-handed-out-twice", f"{key} returned by lines {issued[key]} and {i}", i)
@@ -129,6 +139,14 @@ def oracle(ctx, ops, impl, max_index, min_left_min, max_age=900):
         elif kind == "revoke":
             lst = op["list"]
             name = f"n{lst['node']}/{lst.get('issuer','')}/{lst.get('page',0)}"
+            if ref_atoi(op.get("idx", "")) is None:
+                # Revoke parses the index first: what a decimal 64-bit parser refuses must be refused as such, never acted upon
+                stats["revoke-with-unparsable-index"] += 1
+                if line != "revoke err:atoi":
+                    report("C11:revoke-acts-on-unparsable-status-list-index", f"statusListIndex {op.get('idx')!r}: {line}", i)
+                continue
+            elif op.get("idx") != str(ref_atoi(op["idx"])):
+                stats["revoke-with-alias-spelling-of-index"] += 1
             if line == "revoke ok":
                 stats["revocations"] += 1
                 if int(op["idx"]) in revoked.get((node, name), set()):
@@ -186,6 +204,10 @@ def oracle(ctx, ops, impl, max_index, min_left_min, max_age=900):
                     last_dl[(node, name)] = set(revoked.get((host, name), set()))
             if v == "revoked":
                 stats["verify-revoked"] += 1
+            if len(rel) == 1 and ref_atoi(rel[0]["idx"]) is None:
+                stats["verify-with-unparsable-index"] += 1
+                if v in ("ok", "revoked"):
+                    report("C11:verify-acts-on-unparsable-status-list-index", f"statusListIndex {rel[0]['idx']!r}: answer {v}", i)
             if "dl=[]" not in line:
                 stats["verify-with-download"] += 1
             if len(rel) >= 2 and all(x["idx"].isdigit() and int(x["idx"]) <= max_index and x["list"]["node"] >= 0 for x in rel):
@@ -293,9 +315,7 @@ def oracle(ctx, ops, impl, max_index, min_left_min, max_age=900):
             stats["wire-cases"] += 1
             f = dict(x.split("=", 1) for x in line.split()[1:] if "=" in x)
             idx = op.get("idx", "")
-            ref = None
-            if re.fullmatch(r"[+-]?[0-9]+", idx, flags=re.A) and -2**63 <= int(idx) < 2**63:
-                ref = int(idx)
+            ref = ref_atoi(idx)
             want_atoi = "err" if ref is None else str(ref)
             if f.get("atoi") != want_atoi:
                 report("C11:status-list-index-misparsed", f"statusListIndex {idx!r}: Atoi gave {f.get('atoi')}, a 64-bit decimal parser gives {want_atoi}", i)
